@@ -60,21 +60,22 @@ var (
 
 func init() {
 	subj0 = g.SimpleImage(false, "amd64", "subject-layer")
-	a0 := g.Artifact(atSig, "sig-0", &subj0, map[string]string{"k": "a"})
+	a0 := g.Artifact(atSig, "sig-0", &subj0, map[string]string{"k": "a", "v": "x"})
 	a1 := g.Artifact(atSbom, "sbom-1", &subj0, map[string]string{"k": "b"})
 	a2 := g.Artifact(atSig, "sig-of-a0", &a0, nil)
 	a3 := g.Artifact(atSig, "sig-of-missing", &subjMiss, map[string]string{"k": "a"})
 	// a referrer that is an index, and one that is a plain image manifest without artifactType (its
 	// config media type stands in)
-	a4 := g.Index(false, []modelreg.Desc{a0}, &subj0, map[string]string{"k": "c"})
+	// (annotated, but without the key "k": for the filter "key k is set")
+	a4 := g.Index(false, []modelreg.Desc{a0}, &subj0, map[string]string{"w": "c"})
 	cfg5 := g.Blob("application/vnd.example.cfgtype", `{"kind":"a5"}`)
 	a5 := g.Image(false, cfg5, []modelreg.Desc{g.Blob(graphs.MTOCILayer, "a5-layer")}, &subj0, "", map[string]string{"k": "a"})
 	arts = []artifact{
-		{"A0", a0.Digest, subj0.Digest, atSig, map[string]string{"k": "a"}},
+		{"A0", a0.Digest, subj0.Digest, atSig, map[string]string{"k": "a", "v": "x"}},
 		{"A1", a1.Digest, subj0.Digest, atSbom, map[string]string{"k": "b"}},
 		{"A2", a2.Digest, a0.Digest, atSig, nil},
 		{"A3", a3.Digest, subjMiss.Digest, atSig, map[string]string{"k": "a"}},
-		{"A4", a4.Digest, subj0.Digest, "", map[string]string{"k": "c"}},
+		{"A4", a4.Digest, subj0.Digest, "", map[string]string{"w": "c"}},
 		{"A5", a5.Digest, subj0.Digest, "application/vnd.example.cfgtype", map[string]string{"k": "a"}},
 	}
 	subjects = []string{subj0.Digest, subjMiss.Digest, a0.Digest}
@@ -376,6 +377,17 @@ func (w *World) observe(ctx context.Context, rc *regclient.RegClient, present ma
 		wa := expected(present, s, func(a artifact) bool { return a.annot["k"] == "a" })
 		if strings.Join(an, ",") != strings.Join(wa, ",") {
 			return "filter-annotation", fmt.Sprintf("%s: ReferrerList(%s, k=a) = %v, want %v", who, nameOf(s), an, wa)
+		}
+		// an empty value asks that the key is set (documented on descriptor.MatchOpt)
+		for _, key := range []string{"k", "v"} {
+			en, _, err := w.list(ctx, rc, s, scheme.WithReferrerMatchOpt(descriptor.MatchOpt{Annotations: map[string]string{key: ""}}))
+			if err != nil {
+				return "list-error", fmt.Sprintf("%s: annotation filtered ReferrerList failed: %v", who, err)
+			}
+			we := expected(present, s, func(a artifact) bool { _, ok := a.annot[key]; return ok })
+			if strings.Join(en, ",") != strings.Join(we, ",") {
+				return "filter-annotation-key-set", fmt.Sprintf("%s: ReferrerList(%s, annotation %s is set) = %v, want %v", who, nameOf(s), key, en, we)
+			}
 		}
 	}
 	return "", ""
